@@ -892,6 +892,46 @@ theorem C08_tbt_times_tags (h : List Call) :
   have := tbt_root h (init .tbt)
   simpa [run, step, init] using this
 
+/-! ### a `TestByTestResult` below `TestResultDecorator`s / `Tagger`s -/
+theorem deco_fold (c : Shape) : ∀ (cs : List Call) (st : St c),
+    cs.foldl (step (.deco c)) st = (decoPass cs).foldl (step c) st
+  | [], _ => rfl
+  | x :: cs, st => by
+      rw [List.foldl_cons, deco_fold c cs]
+      cases x <;> rfl
+
+theorem tagger_fold (n g : TagSet) (c : Shape) : ∀ (cs : List Call) (st : St c),
+    cs.foldl (step (.tagger n g c)) st = (taggerPass n g cs).foldl (step c) st
+  | [], _ => rfl
+  | x :: cs, st => by
+      rw [List.foldl_cons, tagger_fold n g c cs]
+      cases x <;> rfl
+
+/-- **C08 (TestByTestResult below decorators and taggers).**  Through any stack of `TestResultDecorator`s and
+`Tagger`s the `TestByTestResult` is in the state it gets from the calls `pathHist` lists: every `startTest` followed by
+each `Tagger`'s `tags(new, gone)`, innermost last — so (`C08_tbt_times_tags`) each callback carries the reporter's tags
+adjusted by all the `Tagger`s on the way, also by one that only removes tags. -/
+theorem path_run : ∀ (s : Shape) (h h' : List Call), pathHist s h = some h' →
+    leaves s (h.foldl (step s) (init s)) = [.tbt (h'.foldl tbtStep (init .tbt))]
+  | .tbt, h, h', hp => by
+      simp only [pathHist, Option.some.injEq] at hp; subst hp; rfl
+  | .deco c, h, h', hp => by
+      have := path_run c (decoPass h) h' (by simpa [pathHist] using hp)
+      show leaves c (h.foldl (step (.deco c)) (init c)) = _
+      rw [deco_fold]; exact this
+  | .tagger n g c, h, h', hp => by
+      have := path_run c (taggerPass n g h) h' (by simpa [pathHist] using hp)
+      show leaves c (h.foldl (step (.tagger n g c)) (init c)) = _
+      rw [tagger_fold]; exact this
+  | .sink _, _, _, hp => by simp [pathHist] at hp
+  | .fsink _ _ _, _, _, hp => by simp [pathHist] at hp
+  | .tt _, _, _, hp => by simp [pathHist] at hp
+  | .text _, _, _, hp => by simp [pathHist] at hp
+  | .etod _, _, _, hp => by simp [pathHist] at hp
+  | .tfr _, _, _, hp => by simp [pathHist] at hp
+  | .multi _, _, _, hp => by simp [pathHist] at hp
+  | .e2s _, _, _, hp => by simp [pathHist] at hp
+
 /-- **C08 (TestByTestResult, a callback that raises).**  In the model a raising `on_test` (`Input.faults`, linear stacks
 over a `TestByTestResult`) is invisible to everything reported later: the trace is that of the same history with a
 well-behaved callback — in particular (`C08_tbt`, `C08_tbt_times_tags`) there still is exactly one callback per
@@ -980,15 +1020,17 @@ theorem holds_model (i : Input) : holds i (model i) = true := by
         exact ok_fine _ hok)
       rw [expectV_eq _ _ (hw.imp (tfrView_wf _) id)] at this
       exact this
-  · -- tbt used directly
-    obtain ⟨sh, hist, faults⟩ := i
-    cases sh <;> try (simp [cTbtRoot])
-    have := C08_tbt_times_tags hist
-    have hm : model { shape := Shape.tbt, hist := hist, faults := faults }
-        = [observe (.tbt (run .tbt (init .tbt) hist))] := rfl
-    rw [hm]
-    simp only [observe, LeafSt.calls, Bool.or_eq_true, beq_iff_eq]
-    exact .inr this
+  · -- tbt used directly or below decorators / taggers
+    simp only [cTbtRoot]
+    cases hp : pathHist i.shape i.hist with
+    | none => rfl
+    | some h' =>
+      have hm : model i = [observe (.tbt (run .tbt (init .tbt) h'))] := by
+        simp only [model, run]
+        rw [path_run i.shape i.hist h' hp]; rfl
+      rw [hm]
+      simp only [observe, LeafSt.calls, Bool.or_eq_true, beq_iff_eq]
+      exact .inr (C08_tbt_times_tags h')
 
 /-! ## nothing is dropped or duplicated -/
 /-- which call, for which test -/
@@ -1031,6 +1073,14 @@ example :
                        hist := [.startTestRun, .tags 1 0, .startTest 1, .tags 2 0, .add .success 1 .none, .stopTest 1,
                                 .startTest 2, .add .success 2 .none, .stopTest 2] }
     (model i).map (fun l => l.calls.map (fun c => (c.test, c.tags))) = [[(1, 3), (2, 1)]] ∧ holds i (model i) = true := by
+  decide
+
+/-- a `Tagger` that only removes a tag, above a `TestByTestResult`: the run-level tag is gone in every callback -/
+example :
+    let i : Input := { shape := .tagger 0 1 (.deco .tbt),
+                       hist := [.startTestRun, .tags 3 0, .startTest 1, .add .success 1 .none, .stopTest 1,
+                                .startTest 2, .tags 4 0, .add .success 2 .none, .stopTest 2] }
+    (model i).map (fun l => l.calls.map (fun c => (c.test, c.tags))) = [[(1, 2), (2, 6)]] ∧ holds i (model i) = true := by
   decide
 
 /-- the forwarding clause is not vacuous: a skip and an unexpected success through
